@@ -1,6 +1,7 @@
 import RustCcModel.Proofs.Policy
 import RustCcModel.Generated.Consts
 import RustCcModel.Model.Machine
+import RustCcModel.Proofs.ExecsStep
 /-! # C15 — automatic collection follows the documented trigger and threshold policy
 
 `D` below is `DEFAULT_BYTES_THRESHOLD` as regenerated from config.rs; the statements hold for every
@@ -56,5 +57,12 @@ theorem default_positive : 0 < Consts.defaultThr := by decide
 example : adjust 100 64 1000 1 10 100 = 1600 := by decide
 example : adjust 100 64 10 1 10 1600 = 100 := by decide
 example : adjust 100 64 150 1 10 1600 = 800 := by decide
+
+/-- **At most one collection per creation, never a second one while one runs**: every micro-step of the machine — in
+particular the step that executes `Cc::new` / `new_cyclic` / `Cleaner::register`'s allocation — raises `executions_count()` by
+at most one, and if it does, no collection was in progress before the step and one is after it. (Any world, any mode.) -/
+theorem at_most_one_collection_per_step (c : Cfg) (w : World) :
+    (step c w).execs = w.execs ∨ ((step c w).execs = w.execs + 1 ∧ w.collecting = false ∧ (step c w).collecting = true) :=
+  step_exLe c w
 
 end RustCc.C15
